@@ -175,6 +175,20 @@ def _splice(facts, g, args, line, stack):
             np = dict(pat)
             np["id"] = pat["id"] + off
             lets.append({"k": "let", "p": np, "i": a, "else": None, "l": line})
+    if is_async and body.get("k") == "block":
+        # the coroutine re-binds every parameter first (`let p = <captured p>`): a parameter that stands for a simple argument keeps doing so
+        keep = []
+        for st in body.get("s", []):
+            init = st.get("i") if isinstance(st, dict) and st.get("k") == "let" else None
+            pat = st.get("p") if init is not None else None
+            if (isinstance(init, dict) and init.get("k") == "upvar" and init.get("id") in subst and isinstance(pat, dict) and pat.get("k") == "bind"
+                    and "sub" not in pat and pat.get("mode") == "BindingMode(No, Not)" and "id" in pat):
+                subst[pat["id"]] = subst[init["id"]]
+                continue
+            keep.append(st)
+        if len(keep) != len(body.get("s", [])):
+            body = dict(body)
+            body["s"] = keep
     nb = _remap(body, off, subst)
     nb = _norm(facts, nb, stack + [g.def_])
     blk = {"k": "block", "s": lets, "e": nb, "l": line, "spliced": g.def_}
